@@ -20,12 +20,16 @@ func VPH_C08_headers() {
 	r := &http.Request{RemoteAddr: ip + ":4711", Host: host, Proto: "HTTP/1.1", Header: http.Header{}}
 	// forged / pre-existing headers
 	var realip, xff, xfproto, xfport, xfhost, fwd, clienthdr, tlshdr string
-	rich := vp.Param("RICH") == 1
+	rich := vp.Param("RICH") >= 1
 	hasReal, hasXFF, hasClient, hasTLS := vp.Bool("has-x-real-ip"), vp.Bool("has-xff"), vp.Bool("has-client-ip-header"), vp.Bool("has-tls-header")
 	hasProto, hasPort, hasHost, hasFwd := false, false, false, false
 	cfgTLSHeader := vp.Bool("cfg-tls-header")
 	if rich {
 		hasProto, hasPort, hasHost, hasFwd = vp.Bool("has-xf-proto"), vp.Bool("has-xf-port"), vp.Bool("has-xf-host"), vp.Bool("has-forwarded")
+		if vp.Param("RICH") == 2 {
+			// forged X-Forwarded-Port and X-Forwarded-Host come together or not at all
+			vp.Assume(hasPort == hasHost)
+		}
 	} else {
 		vp.Assume(host != "")
 		if cfgTLSHeader {
@@ -76,6 +80,9 @@ func VPH_C08_headers() {
 		}
 		if hasTLS {
 			k += 4
+		}
+		if hasProto {
+			k += 8
 		}
 		vp.Assume(k%n == vp.Param("SHARD"))
 	}
